@@ -359,7 +359,15 @@ func transformTokens(rt *rapid.T, toks []bn.Tok, doDigits, doSyn, doRename, doLa
 			b.WriteString("\n")
 		}
 	}
-	return b.String(), inverse
+	out := b.String()
+	if doLayout && rapid.IntRange(0, 3).Draw(rt, "squeeze") == 0 {
+		// the other direction of (a): every optional blank and comment removed, tokens kept on their lines
+		if sq, ok := squeezeText(out); ok {
+			out = sq
+			cnt.layout++
+		}
+	}
+	return out, inverse
 }
 
 var lineNoRe = regexp.MustCompile(`line \d+`)
